@@ -48,7 +48,11 @@ var (
 	aligns    = []string{"", "center", "right", "both", "left"}
 	templates = []string{"TableNormal", "TableGrid", "TableList", "TableColorful1", "TableColorful2", "TableColorful3", "TableColumns1", "TableColumns2",
 		"TableColumns3", "TableRows1", "TableRows2", "TableRows3", "TablePlain1", "TablePlain2", "TablePlain3"}
-	mdPieces = []string{"# H1\n\n", "## H2\n\n", "### H3 deep\n\n", "plain paragraph\n\n", "> quoted words\n\n", "```\ncode line\n  indented\n```\n\n",
+	// note texts: the words, and the empty / whitespace-only texts a caller may well pass (a note without text)
+	blankTexts = []string{"", "", " ", "\t", " \n "}
+	// ids that name nothing in any document of a history
+	unknownIDs = []string{"9999", "abc", "", "NoSuchStyle"}
+	mdPieces   = []string{"# H1\n\n", "## H2\n\n", "### H3 deep\n\n", "plain paragraph\n\n", "> quoted words\n\n", "```\ncode line\n  indented\n```\n\n",
 		"    indented code\n\n", "| a | b |\n|---|---|\n| 1 | 2 |\n\n", "- item\n- item two\n\n", "1. one\n2. two\n\n", "**bold** and *it*\n\n"}
 )
 
@@ -65,8 +69,8 @@ var weights = []struct {
 	{"table", 3}, {"tblstyle", 4}, {"tblcustom", 1},
 	{"toc", 1}, {"autotoc", 1}, {"updatetoc", 1},
 	{"listitem", 3}, {"bullet", 1}, {"numbered", 1},
-	{"footnote", 3}, {"endnote", 3}, {"header", 1}, {"footer", 1},
-	{"save", 5}, {"reopen", 5}, {"md", 1}, {"render", 3},
+	{"footnote", 3}, {"endnote", 3}, {"fnrun", 2}, {"rej", 3}, {"header", 1}, {"footer", 1},
+	{"save", 5}, {"reopen", 5}, {"md", 2}, {"render", 3},
 }
 
 var kindPool = func() []string {
@@ -80,6 +84,14 @@ var kindPool = func() []string {
 }()
 
 func word(t *rapid.T, l string) string { return rapid.SampledFrom(words).Draw(t, l) }
+
+// noteText: the text of a note; a third of them are empty or blank
+func noteText(t *rapid.T) string {
+	if rapid.IntRange(0, 2).Draw(t, "blanknote") == 0 {
+		return rapid.SampledFrom(blankTexts).Draw(t, "blank")
+	}
+	return word(t, "note")
+}
 
 func genSpec(t *rapid.T, full bool) *StyleSpec {
 	s := &StyleSpec{Name: rapid.SampledFrom(styleName).Draw(t, "sname")}
@@ -164,7 +176,18 @@ func genOpOf(t *rapid.T, k string) Op {
 		o.S = []string{word(t, "text")}
 		o.I = []int{rapid.IntRange(0, 8).Draw(t, "lvl"), sel()}
 	case "footnote", "endnote":
-		o.S = []string{word(t, "text"), word(t, "note")}
+		o.S = []string{word(t, "text"), noteText(t)}
+		if rapid.IntRange(0, 7).Draw(t, "nobody") == 0 {
+			o.S[0] = ""
+		}
+	case "fnrun":
+		// AddFootnoteToRun on a run of an existing body paragraph
+		o.I = []int{sel(), sel()}
+		o.S = []string{noteText(t)}
+	case "rej":
+		// a call with a nil config, an unknown id or an out-of-range value (see rejectKinds)
+		o.I = []int{rapid.IntRange(0, len(rejectKinds)-1).Draw(t, "rejkind"), sel()}
+		o.S = []string{rapid.SampledFrom(unknownIDs).Draw(t, "unknown"), word(t, "text")}
 	case "header", "footer":
 		o.I = []int{sel()}
 		o.S = []string{word(t, "text")}
@@ -223,7 +246,108 @@ func genStart(t *rapid.T) *Start {
 	for i := 0; i < n; i++ {
 		s.Headings = append(s.Headings, rapid.IntRange(1, 9).Draw(t, "hl"))
 	}
+	// two in five packages from elsewhere lack optional parts: no (or an empty / style-less) styles part on a package
+	// that keeps its lists and notes, or the bare package of a minimal producer (main part only)
+	switch rapid.IntRange(0, 4).Draw(t, "optional") {
+	case 0:
+		s.NoStyles = rapid.SampledFrom(noStylesVariants).Draw(t, "nostyles")
+		s.Scheme, s.Strip = "none", false
+	case 1:
+		s = &Start{Scheme: "none", Minimal: true, MinParas: rapid.IntRange(1, 3).Draw(t, "minparas"), MinTable: rapid.Bool().Draw(t, "mintable"),
+			MinRels: rapid.Bool().Draw(t, "minrels")}
+		if rapid.Bool().Draw(t, "minstyles") {
+			s.NoStyles = rapid.SampledFrom(noStylesVariants).Draw(t, "nostyles")
+		}
+	}
 	return s
+}
+
+// genOrder: the order-of-calls shape. A predefined style that a helper emits only for some content (heading style of
+// level L, TOC entry style of level L) is removed while nothing uses it YET - before any such content exists, or after a
+// table of contents was built (and saved) that has no entry of level L - and the calls that make the helper emit it come later.
+func genOrder(t *rapid.T) []Op {
+	var out []Op
+	L := rapid.IntRange(1, 9).Draw(t, "ordlevel")
+	heading := func(l int) Op {
+		h := genOpOf(t, "heading")
+		h.I = []int{l}
+		return h
+	}
+	toc := func(k string) Op {
+		o := genOpOf(t, k)
+		if k != "updatetoc" {
+			o.I = []int{rapid.IntRange(L, 9).Draw(t, "ordmax")}
+		}
+		return o
+	}
+	remove := func(id string) Op {
+		rm := genOpOf(t, "st.remove")
+		rm.S = []string{id}
+		return rm
+	}
+	other := func() int { // a level that is not L
+		l := rapid.IntRange(1, 8).Draw(t, "ordother")
+		if l >= L {
+			l++
+		}
+		return l
+	}
+	tocFirst := rapid.IntRange(0, 3).Draw(t, "ordtocfirst") != 0
+	if tocFirst {
+		// a table of contents without an entry of level L exists before the style is removed
+		nh := rapid.IntRange(0, 2).Draw(t, "ordnh")
+		k := rapid.SampledFrom([]string{"toc", "toc", "autotoc"}).Draw(t, "ordtoc")
+		if k == "autotoc" && nh == 0 {
+			nh = 1 // AutoGenerateTOC wants a heading
+		}
+		for i := 0; i < nh; i++ {
+			out = append(out, heading(other()))
+		}
+		out = append(out, toc(k))
+		// the caller looks at what the document uses now (a save), or does not
+		if rapid.IntRange(0, 4).Draw(t, "ordsave") != 0 {
+			out = append(out, genOpOf(t, "save"))
+		}
+	}
+	switch rapid.IntRange(0, 3).Draw(t, "ordwhat") {
+	case 0:
+		out = append(out, remove(fmt.Sprintf("Heading%d", L)))
+	case 1:
+		out = append(out, remove(tocIDs[L]), remove(fmt.Sprintf("Heading%d", L)))
+	default:
+		out = append(out, remove(tocIDs[L]))
+	}
+	if rapid.IntRange(0, 3).Draw(t, "ordmid") == 0 {
+		out = append(out, genOpOf(t, rapid.SampledFrom([]string{"save", "updatetoc", "para"}).Draw(t, "ordmidk")))
+	}
+	out = append(out, heading(L))
+	if tocFirst {
+		out = append(out, toc(rapid.SampledFrom([]string{"updatetoc", "updatetoc", "updatetoc", "toc", "autotoc"}).Draw(t, "ordupd")))
+	} else {
+		out = append(out, toc(rapid.SampledFrom([]string{"toc", "autotoc"}).Draw(t, "ordtoc2")))
+		if rapid.Bool().Draw(t, "ordupd2") {
+			out = append(out, heading(other()), toc("updatetoc"))
+		}
+	}
+	return out
+}
+
+// genRejected: the rejected-call shape. Note, list, style and TOC calls with arguments the library rejects or corrects
+// (blank note text, nil config, unknown id, out-of-range level) among ordinary ones, then saves and an open/save cycle.
+func genRejected(t *rapid.T) []Op {
+	var out []Op
+	n := rapid.IntRange(2, 5).Draw(t, "rejn")
+	for i := 0; i < n; i++ {
+		k := rapid.SampledFrom([]string{"footnote", "endnote", "fnrun", "rej", "rej", "para", "listitem", "heading"}).Draw(t, "rejk")
+		o := genOpOf(t, k)
+		if (isNoteOp(k) || k == "fnrun") && rapid.Bool().Draw(t, "rejblank") {
+			o.S[len(o.S)-1] = rapid.SampledFrom(blankTexts).Draw(t, "blank")
+		}
+		out = append(out, o)
+	}
+	out = append(out, genOpOf(t, rapid.SampledFrom([]string{"save", "reopen", "render"}).Draw(t, "rejsave")))
+	out = append(out, genOpOf(t, rapid.SampledFrom([]string{"footnote", "endnote", "fnrun"}).Draw(t, "rejafter")))
+	return out
 }
 
 func genCase(t *rapid.T) Case {
@@ -235,7 +359,11 @@ func genCase(t *rapid.T) Case {
 	for i := 0; i < n; i++ {
 		c.Ops = append(c.Ops, genOpOf(t, rapid.SampledFrom(kindPool).Draw(t, "kind")))
 	}
-	switch rapid.IntRange(0, 5).Draw(t, "tail") {
+	switch rapid.IntRange(0, 7).Draw(t, "tail") {
+	case 3, 4:
+		c.Ops = append(c.Ops, genOrder(t)...)
+	case 5:
+		c.Ops = append(c.Ops, genRejected(t)...)
 	case 0, 1:
 		for _, k := range rapid.SampledFrom(tails).Draw(t, "tailsel") {
 			c.Ops = append(c.Ops, genOpOf(t, k))
@@ -331,6 +459,10 @@ func (r *runner) judgeAs(m *model, b []byte, where string, current bool) *obs {
 			m.styleBetweenSaves = true
 		}
 		m.sinceSave = false
+		m.observedSave(o)
+		if m.rejectPending {
+			m.rejectPending, m.rejectJudged = false, true
+		}
 		if !m.opened && !m.renderOfSaved {
 			m.lastSaveStyles = map[string]bool{}
 			for id := range o.Styles {
@@ -759,6 +891,12 @@ func (r *runner) step(i int, op Op) bool {
 		if len(op.S) > 0 {
 			m.removed[id] = true
 			res.Label("remove:predefined")
+			if reTOCID.MatchString(id) {
+				res.Label("remove:toc-style")
+				if m.tocOps > 0 {
+					res.Label("remove:toc-style-unused-by-existing-toc")
+				}
+			}
 			if strings.HasPrefix(id, "Heading") {
 				res.Label("remove:heading-style")
 			}
@@ -768,6 +906,16 @@ func (r *runner) step(i int, op Op) bool {
 			return true
 		}
 		cand := m.idsOfType("paragraph")
+		if m.opened {
+			// on an opened document a caller also tries the ids the library documents as predefined: whether one is
+			// registered on THIS document is asked below (StyleExists/GetStyle), as for every candidate
+			for id, typ := range builtinTypes {
+				if _, ok := m.reg[id]; !ok && typ == "paragraph" {
+					cand = append(cand, id)
+				}
+			}
+			sortStrings(cand)
+		}
 		if len(op.B) > 0 && op.B[0] {
 			var own []string
 			for _, id := range cand {
@@ -801,6 +949,7 @@ func (r *runner) step(i int, op Op) bool {
 			return false
 		}
 		m.used[id] = true
+		r.styledContent()
 		res.Label("op:pstyle")
 		if _, custom := builtinTypes[id]; !custom || m.want[id] != nil {
 			res.Label("pstyle:api-style")
@@ -873,6 +1022,30 @@ func (r *runner) step(i int, op Op) bool {
 			res.Count("op_errors", 1)
 		}
 		m.sinceSave = true
+		r.styledContent()
+	case "fnrun":
+		// AddFootnoteToRun on a run of a body paragraph that has one
+		var cand []*document.Paragraph
+		for _, p := range x.Paras {
+			if p != nil && len(p.Runs) > 0 {
+				cand = append(cand, p)
+			}
+		}
+		if len(cand) == 0 {
+			return true
+		}
+		p := cand[ops.In(op.I[0], len(cand))]
+		var err error
+		if !try(func() { err = x.Doc.AddFootnoteToRun(&p.Runs[ops.In(op.I[1], len(p.Runs))], op.S[0]) }) {
+			return false
+		}
+		if err != nil {
+			res.Count("op_errors", 1)
+		}
+		res.Label("op:fnrun")
+		r.afterNote(op.S[0], err)
+	case "rej":
+		return r.reject(where, op)
 	default:
 		// ops of the shared interpreter
 		var err error
@@ -893,70 +1066,125 @@ func (r *runner) step(i int, op Op) bool {
 				}
 			}
 		case isListOp(op.K):
-			m.lists++
-			m.sinceSave = true
-			res.Label("op:list")
-			if m.opened {
-				m.extendAfterOpen = true
-				res.Label("list:after-open")
-				if len(m.preNum) > 0 {
-					res.Label("list:after-open-with-lists")
-					if m.startNS != "" {
-						res.Label("list:after-open-ns-" + m.startNS)
-					}
-				}
-			}
-			if m.rendered {
-				m.extendAfterRender = true
-				res.Label("list:after-render")
-				if m.opened && len(m.preNum) > 0 && m.listsSinceOpen > 0 {
-					res.Label("list:after-render-of-extended-opened")
-				}
-			}
-			m.listsSinceOpen++
+			r.afterList()
 		case isNoteOp(op.K):
-			res.Label("op:note")
-			m.notes++
-			if m.opened {
-				res.Label("note:after-open")
-				if len(m.preFn)+len(m.preEn) > 0 {
-					res.Label("note:after-open-with-notes")
-					if m.startNS != "" {
-						res.Label("note:after-open-ns-" + m.startNS)
-					}
-				}
-			}
-			if m.rendered {
-				m.extendAfterRender = true
-				res.Label("note:after-render")
-			}
+			r.afterNote(op.S[1], err)
 		case isTOCOp(op.K):
-			m.sinceSave = true
-			res.Label("op:" + op.K)
-			// TOC entries may be given any of the TOC styles, AutoGenerateTOC closes the field with a Heading1 paragraph
-			for _, id := range tocIDs {
-				if m.removed[id] {
-					res.Label("toc:after-removed-toc-style")
-				}
-				m.used[id] = true
-			}
-			m.used["Heading1"] = true
+			r.afterTOC(op.K)
 		case op.K == "heading":
-			res.Label("op:heading")
-			hid := fmt.Sprintf("Heading%d", op.I[0])
-			if m.removed[hid] {
-				res.Label("heading:after-its-style-removed")
-			}
-			m.used[hid] = true
-			if op.I[0] == 9 {
-				res.Label("heading:9")
-			}
-			if m.opened {
-				res.Label("heading:after-open")
-			}
+			r.afterHeading(op.I[0])
 		}
 	}
 	return true
+}
+
+// afterNote: bookkeeping of one executed note call (AddFootnote / AddEndnote / AddFootnoteToRun) with the
+// note text it was given and the result it returned. The oracle needs neither: whatever the call answered,
+// every reference of the next save must have its note.
+func (r *runner) afterNote(text string, err error) {
+	m, res := r.m, r.res
+	res.Label("op:note")
+	m.notes++
+	if m.opened {
+		res.Label("note:after-open")
+		if len(m.preFn)+len(m.preEn) > 0 {
+			res.Label("note:after-open-with-notes")
+			if m.startNS != "" {
+				res.Label("note:after-open-ns-" + m.startNS)
+			}
+		}
+	}
+	if m.rendered {
+		m.extendAfterRender = true
+		res.Label("note:after-render")
+	}
+	if strings.TrimSpace(text) == "" {
+		res.Label("note:blank-text")
+		m.rejectPending = true
+	}
+	if err != nil {
+		res.Label("note:call-rejected")
+		m.rejectPending = true
+	}
+}
+
+// afterList: bookkeeping of one executed list call (AddListItem / AddBulletList / AddNumberedList).
+func (r *runner) afterList() {
+	m, res := r.m, r.res
+	m.lists++
+	m.sinceSave = true
+	res.Label("op:list")
+	if m.opened {
+		m.extendAfterOpen = true
+		res.Label("list:after-open")
+		if len(m.preNum) > 0 {
+			res.Label("list:after-open-with-lists")
+			if m.startNS != "" {
+				res.Label("list:after-open-ns-" + m.startNS)
+			}
+		}
+	}
+	if m.rendered {
+		m.extendAfterRender = true
+		res.Label("list:after-render")
+		if m.opened && len(m.preNum) > 0 && m.listsSinceOpen > 0 {
+			res.Label("list:after-render-of-extended-opened")
+		}
+	}
+	m.listsSinceOpen++
+}
+
+// afterTOC: bookkeeping of one executed TOC call.
+func (r *runner) afterTOC(k string) {
+	m, res := r.m, r.res
+	m.sinceSave = true
+	res.Label("op:" + k)
+	// TOC entries may be given any of the TOC styles, AutoGenerateTOC closes the field with a Heading1 paragraph
+	for _, id := range tocIDs {
+		if m.removed[id] {
+			res.Label("toc:after-removed-toc-style")
+			if k == "updatetoc" {
+				res.Label("updatetoc:after-removed-toc-style")
+			}
+		}
+		m.used[id] = true
+	}
+	m.used["Heading1"] = true
+	m.tocOps++
+	r.styledContent()
+}
+
+// afterHeading: bookkeeping of one executed AddHeadingParagraph(text, level).
+func (r *runner) afterHeading(level int) {
+	m, res := r.m, r.res
+	res.Label("op:heading")
+	if level < 1 || level > 9 {
+		// documented range 1-9; anything else is treated as level 1
+		res.Label("heading:level-out-of-range")
+		level = 1
+	}
+	hid := fmt.Sprintf("Heading%d", level)
+	if m.removed[hid] {
+		res.Label("heading:after-its-style-removed")
+	}
+	m.used[hid] = true
+	if level == 9 {
+		res.Label("heading:9")
+	}
+	if m.opened {
+		res.Label("heading:after-open")
+	}
+	r.styledContent()
+}
+
+// styledContent: a call that gives a body element a style id ran; on a document opened from a package
+// without style definitions that is the extension the property is about.
+func (r *runner) styledContent() {
+	if r.m.opened && r.m.noStylesAtOpen {
+		r.m.styledNoStyles = true
+		r.m.extendAfterOpen = true
+		r.res.Label("nostyles:styled-content")
+	}
 }
 
 // styleLabel labels a style-API op by the state of the document object it is applied to.
@@ -997,6 +1225,17 @@ func run(c Case) *kit.Result {
 		if c.Start.NS != "" {
 			res.Label("start:ns-" + c.Start.NS)
 			r.m.startNS = c.Start.NS
+		}
+		if c.Start.Minimal {
+			res.Label("start:minimal")
+		}
+		if c.Start.Minimal || c.Start.NoStyles != "" {
+			res.Label("start:no-style-definitions")
+			if c.Start.NoStyles == "" {
+				res.Label("start:styles-absent")
+			} else {
+				res.Label("start:styles-" + c.Start.NoStyles)
+			}
 		}
 		var b []byte
 		var err error
@@ -1040,28 +1279,36 @@ func run(c Case) *kit.Result {
 	if m.extendAfterRender {
 		res.Label("rendered-then-extended")
 	}
-	res.Nontrivial = m.styleBetweenSaves || m.extendAfterOpen || m.extendAfterRender
+	if m.rejectJudged {
+		res.Label("rejected-call-then-judged-save")
+	}
+	res.Nontrivial = m.styleBetweenSaves || m.extendAfterOpen || m.extendAfterRender || m.rejectJudged
 	return res
 }
 
 func TestC13(t *testing.T) {
 	kit.Main(t, kit.Spec[Case]{
 		ID: "C13", Level: "exploration",
-		Rule: "history of 1-18 (thorough 1-40) generated calls (+ a scenario tail in 1/3 of the cases) over the style API (CreateCustomStyle, AddStyle, in-place change, RemoveStyle of an unused custom or predefined style - also right before the heading/TOC call that would normally use it, CreateQuickStyle), styled content (headings 1-9, SetStyle with an id registered at that moment, quote/code via markdown, GenerateTOC/AutoGenerateTOC/UpdateTOC, ApplyTableStyle, CreateCustomTableStyle), list items, notes, saves (ToBytes/Save), reopen (same process / fresh process) and render (the current document is loaded as the base document of a template, LoadTemplateFromDocument + RenderTemplateToDocument with empty data, and the history goes on with the rendered copy); 1/4 of the cases start from a package with localised style ids, its own numbering and notes, half of these with numbering/notes parts that bind the main namespace to ns0: or make it the default namespace. Every intermediate and the final package is judged on X1-X4; the base document of a render is saved once more when the history ends (or the next render replaces it) and that package is judged on X1-X3. Non-trivial = >=2 judged saves with a style/list/TOC op between them, or an opened package extended by a style-API or list op, or a rendered copy extended by a style-API, list or note op; distinct = distinct (start shape, op kind sequence)",
+		Rule: "history of 1-18 (thorough 1-40) generated calls (+ a scenario tail in 3/4 of the cases: multi-step shapes; remove-then-emit; order-of-calls shape = a table of contents without level L is built [and saved], the unused TOC/heading style of level L removed, then a heading of level L and UpdateTOC/GenerateTOC/AutoGenerateTOC; rejected-call shape = notes with blank text, nil configs, unknown ids, out-of-range levels, then save/reopen/render and one more note) over the style API (CreateCustomStyle, AddStyle, in-place change, RemoveStyle of an unused custom or predefined style - also right before the heading/TOC call that would normally use it, CreateQuickStyle), styled content (headings 1-9, SetStyle with an id registered at that moment, quote/code via markdown, GenerateTOC/AutoGenerateTOC/UpdateTOC, ApplyTableStyle, CreateCustomTableStyle), list items, notes (AddFootnote/AddEndnote/AddFootnoteToRun; a third of the note texts empty or whitespace-only), calls with rejected/corrected arguments (RemoveFootnote/RemoveEndnote/RestartNumbering/RemoveStyle of unknown ids, AddListItem/GenerateTOC/AutoGenerateTOC/SetFootnoteConfig/CreateMultiLevelList with nil, CreateQuickStyle of an existing id, heading and SetTOCStyle levels outside 1-9, ApplyTableStyle/CreateCustomTableStyle without an id), saves (ToBytes/Save), reopen (same process / fresh process) and render (the current document is loaded as the base document of a template, LoadTemplateFromDocument + RenderTemplateToDocument with empty data, and the history goes on with the rendered copy); 1/4 of the cases start from a package with localised style ids, its own numbering and notes, half of these with numbering/notes parts that bind the main namespace to ns0: or make it the default namespace; two in five of the start packages lack optional parts: no word/styles.xml (or a zero-length one, or one without any w:style) while keeping their lists and notes, or the bare three-part package of a minimal producer. Every intermediate and the final package is judged on X1-X4; the base document of a render is saved once more when the history ends (or the next render replaces it) and that package is judged on X1-X3. Non-trivial = >=2 judged saves with a style/list/TOC op between them, or an opened package extended by a style-API or list op, or a rendered copy extended by a style-API, list or note op, or styled content added to a document opened from a package without style definitions, or a judged save after a rejected call / blank note text; distinct = distinct (start shape, op kind sequence)",
 		Gen:  genCase, Run: run, Findings: findings,
 		Assumptions: []string{
 			"ids are resolved by the harness's own zip/OPC reader and canonical XML trees; the styles/numbering/notes parts are located through the main part's relationships, else by content type, else by their conventional names (where a relationship is missing or misplaced is C02's clause, except the numbering relationship which X2 names)",
-			"the library writes a note reference as a run whose whole text is [N] / [尾注N]; such runs are taken as references to note id N (generated texts never have this form)",
+			"the library writes a note reference as the text [N] / [尾注N], in a run of its own (AddFootnote/AddEndnote) or appended to the text of an existing run (AddFootnoteToRun); every such marker in a run of the main part is taken as a reference to note id N (generated texts contain no brackets)",
+			"the result of a call (error or not) is not part of the oracle: after a call that was rejected, or given an empty/blank/nil/unknown argument, the following saves are judged on X1-X4 like any other - a rejected call must not leave a reference behind",
+			"a start package without style definitions is an input: its body refers to no style; on an opened document SetStyle is also tried with the ids the library documents as predefined, each only when StyleExists/GetStyle confirm it on that document",
 			"the note/numbering registries are per document since /repo 996cdc4: every reopen starts from empty registries, the same-process/fresh-process flag of the reopen op no longer changes anything",
-			"a style counts as unused (removable) when no op of the history gave it to a body element, the package the document was opened from does not refer to it, no TOC op ran (TOC/Heading1 ids), no markdown conversion produced the document (heading/quote/code ids) and no known style is based on it",
+			"a style counts as unused (removable) when no part of the most recent judged save of the document object refers to it (the harness's own reading of that package; before the first save: the package it was opened from), no op since then gave it or may have given it to a body element (heading op: its HeadingN; any TOC op: all TOC ids and Heading1; markdown conversion: heading/quote/code ids) and no known style is based on it",
 			"X4 expectations are dropped when the document object is replaced (reopen, markdown conversion, template render) and when a style is removed: the statement promises presence in the next save only",
 			"template rendering is used as one more way (besides Open) in which a document object with its own list/note/style definitions comes into being; it is rendered with empty template data and the generated texts contain no template syntax, so the rendered copy must resolve every id exactly as its base does",
 			"namespace bindings of the parts of a start package are rewritten by the harness (same infoset); ids are resolved by expanded names (namespace URI + local name), never by prefix"},
 		MustSee: map[string]float64{"saves>=2": 0.5, "style/list/toc-op-between-saves": 0.3, "opened-then-extended": 0.15, "start:foreign": 0.15,
-			"style:early": 0.2, "style:after-save": 0.1, "style:on-opened": 0.15, "remove:heading-style": 0.05, "heading:after-its-style-removed": 0.03, "toc:after-removed-toc-style": 0.01, "op:pstyle": 0.2, "pstyle:api-style": 0.05, "heading:9": 0.05, "op:autotoc": 0.05, "op:toc": 0.05,
+			"style:early": 0.2, "style:after-save": 0.08, "style:on-opened": 0.15, "remove:heading-style": 0.05, "heading:after-its-style-removed": 0.03, "toc:after-removed-toc-style": 0.01, "op:pstyle": 0.2, "pstyle:api-style": 0.05, "heading:9": 0.05, "op:autotoc": 0.05, "op:toc": 0.05,
 			"op:tblstyle-template": 0.05, "op:tblcustom": 0.03, "op:list": 0.2, "op:note": 0.3, "list:after-open-with-lists": 0.03,
 			"note:after-open-with-notes": 0.03, "op:render": 0.1, "render:of-opened": 0.05, "render:base-with-lists": 0.04, "list:after-render": 0.03, "note:after-render": 0.03,
 			"list:after-render-of-extended-opened": 0.008, "base-judged-after-render": 0.1, "start:ns-ns0": 0.015, "start:ns-default": 0.015, "start:ns-default-ns1": 0.015,
-			"list:after-open-ns-ns0": 0.004, "note:after-open-ns-ns0": 0.004, "reopen:fresh-process": 0.15, "reopen:same-process": 0.15, "op:md": 0.05, "op:st.mod": 0.1},
+			"list:after-open-ns-ns0": 0.004, "note:after-open-ns-ns0": 0.004, "reopen:fresh-process": 0.15, "reopen:same-process": 0.15, "op:md": 0.05, "op:st.mod": 0.1,
+			"note:blank-text": 0.1, "op:fnrun": 0.05, "op:rej": 0.08, "rej:error-result": 0.04, "rejected-call-then-judged-save": 0.15,
+			"start:no-style-definitions": 0.06, "start:minimal": 0.03, "start:styles-absent": 0.02, "start:styles-empty": 0.01, "start:styles-hollow": 0.01,
+			"nostyles:styled-content": 0.05, "remove:toc-style": 0.05, "remove:toc-style-unused-by-existing-toc": 0.03, "updatetoc:after-removed-toc-style": 0.03},
 	})
 }
